@@ -26,6 +26,7 @@ KERNEL = [
     ("K4-fcl-surface", "fcl.collide reports a surface collision only if the solids overlap"),
     ("K5-fcl-convex", "for two convex solids fcl.collide also detects containment: no collision implies no overlap"),
     ("K6-single-body", "without surface collision, two single-body solids overlap exactly when one contains the other's interior point"),
+    ("K8-containment", "containment kernel: (a) an object inside a region has an AABB overlapping the region's; (b) a convex region contains an object iff all the object's mesh vertices have positive signed distance, and it does if all corners of the object's bounding box have; (c) for a point q of the object: q outside the region => not contained; distance from q to the region's surface > max vertex distance of the object from q (and q inside) => contained; (d) for a point c of the region: some object vertex farther from c than every region vertex => not contained; (e) object minus region is `nowhere` exactly when the object is contained"),
     ("K7-boolean", "the exhaustive pass is the definition: self.intersect(other) is `nowhere` exactly when the solids do not overlap; occupiedSpace.intersects is exact"),
 ]
 
@@ -36,6 +37,7 @@ def register(reg):
         reg.trust(n, t)
     register_object_intersects(reg)
     register_volume_intersects(reg)
+    register_contains_object(reg)
 
 
 def hypot_of(eng, name, sqsum):
@@ -242,4 +244,155 @@ def register_volume_intersects(reg):
             properties=("C04",),
         ),
         key=f"{RG}:MeshVolumeRegion.intersects[volume]",
+    )
+
+
+# ===================================================================================================
+# MeshVolumeRegion.containsObject: the five passes
+
+
+def register_contains_object(reg):
+    NV = 2  # vertices per mesh in the model (symbolic coordinates)
+
+    def verts(eng, tag):
+        return [[eng.fresh_real(f"{tag}.v{i}.{c}") for c in "xyz"] for i in range(NV)]
+
+    def maxdist(eng, name, vs, q):
+        ds = [hypot_of(eng, f"{name}{i}", dist3sq(v, q)) for i, v in enumerate(vs)]
+        m = ds[0]
+        for d in ds[1:]:
+            m = sv_ite(compare(">", d, m), d, m)
+        return m
+
+    def setup(I, env):
+        eng = I.eng
+        K = dict(log=[], inside=eng.fresh_bool("object_inside_region"))
+        ins = K["inside"]
+        S = PObj(RC("MeshVolumeRegion"), tag="self")
+        init_samplable(S)
+        smesh = MS.make_mesh(I, "self.mesh")
+        sv = verts(eng, "self.mesh")
+        smesh.fields["vertices"] = MS.NDArr((NV, 3), sv)
+        convex = eng.fresh_bool("self.isConvex")
+        # the object
+        obj = PObj("Object", tag="obj")
+        omesh = MS.make_mesh(I, "obj.mesh")
+        ov = verts(eng, "obj.mesh")
+        omesh.fields["vertices"] = MS.NDArr((NV, 3), ov)
+        bbmesh = MS.make_mesh(I, "obj.bbox.mesh")
+        bv = verts(eng, "obj.bbox")
+        bbmesh.fields["vertices"] = MS.NDArr((NV, 3), bv)
+        space = PObj(RC("MeshVolumeRegion"), tag="obj.occupiedSpace")
+        init_samplable(space)
+        diff_empty = eng.fresh_bool("object_minus_region_is_empty")
+
+        def difference(other):
+            K["log"].append("difference")
+            if eng.branch(tobool(diff_empty)):
+                e = PObj(RC("EmptyRegion"), tag="nowhere")
+                init_samplable(e)
+                return e
+            t = PObj(RC("MeshVolumeRegion"), tag="difference")
+            init_samplable(t)
+            return t
+
+        space.fields.update(mesh=omesh, num_samples=eng.fresh_int("obj.num_samples"), difference=BuiltinFn("difference", difference))
+        bbox = PObj(RC("MeshVolumeRegion"), tag="obj.boundingBox")
+        bbox.fields["mesh"] = bbmesh
+        opos = tuple(eng.fresh_real(f"obj.position.{c}") for c in "xyz")
+        pos_in_obj = eng.fresh_bool("obj_contains_its_position")
+        obj.fields.update(occupiedSpace=space, boundingBox=bbox, position=make_vector(*opos), containsPoint=BuiltinFn("containsPoint", lambda p: pos_in_obj))
+        # signed distances to the region's surface (positive inside), one unknown per queried point
+        sd = {}
+
+        def signed_distance(pts):
+            K["log"].append("signed_distance")
+            out = []
+            for p in I.iterate(pts):
+                c = tuple(p.fields["coordinates"]) if isinstance(p, PObj) else tuple(I.iterate(p))
+                key = tuple(toz3(x, want_real=True).get_id() for x in c)
+                if key not in sd:
+                    sd[key] = (c, eng.fresh_real(f"signed_distance{len(sd)}"))
+                out.append(sd[key][1])
+            return MS.NDArr((len(out),), out)
+
+        smesh.fields["_signed_distance"] = signed_distance
+        K["sd"] = lambda c: signed_distance([c]).data[0]
+        # samples
+        osample = tuple(eng.fresh_real(f"obj.sample.{c}") for c in "xyz")
+        ssample = tuple(eng.fresh_real(f"self.sample.{c}") for c in "xyz")
+
+        def sampler(pt, tag):
+            def f(count):
+                K["log"].append("sample " + tag)
+                if eng.choose(2, f"{tag} sampling succeeds?") == 1:
+                    return MS.NDArr((1, 3), [list(pt)])
+                return MS.NDArr((0, 3), [])
+
+            return f
+
+        omesh.fields["_volume_sample"] = sampler(osample, "obj")
+        smesh.fields["_volume_sample"] = sampler(ssample, "self")
+        contains_pt = {}
+
+        def region_contains(p):
+            c = tuple(p.fields["coordinates"])
+            key = tuple(toz3(x, want_real=True).get_id() for x in c)
+            if key not in contains_pt:
+                contains_pt[key] = (c, eng.fresh_bool(f"region_contains_point{len(contains_pt)}"))
+            return contains_pt[key][1]
+
+        S.fields.update(mesh=smesh, isConvex=convex, num_samples=eng.fresh_int("self.num_samples"), containsPoint=BuiltinFn("containsPoint", region_contains), orientation=None, name=None)
+
+        # ---------------- kernel axioms K8
+        a_lo, a_hi, b_lo, b_hi = smesh.fields["_lo"], smesh.fields["_hi"], omesh.fields["_lo"], omesh.fields["_hi"]
+        eng.assume(sv_implies(ins, sv_and(*[sv_and(compare("<=", a_lo[k], b_hi[k]), compare("<=", b_lo[k], a_hi[k])) for k in range(3)])))  # (a)
+        sd_of = K["sd"]
+        all_obj = sv_and(*[compare(">", sd_of(tuple(v)), 0) for v in ov])
+        all_bb = sv_and(*[compare(">", sd_of(tuple(v)), 0) for v in bv])
+        eng.assume(sv_implies(convex, sv_and(iff(ins, all_obj), sv_implies(all_bb, ins))))  # (b)
+        for q, is_obj_point in ((opos, pos_in_obj), (osample, True)):  # (c)
+            qv = make_vector(*q)
+            cq = region_contains(qv)
+            rad = maxdist(eng, "obj_vertex_distance_from_candidate", ov, q)
+            dq = sd_of(tuple(q))
+            absd = sv_ite(compare(">=", dq, 0), dq, arith("-", 0, dq))
+            eng.assume(sv_implies(is_obj_point, sv_and(sv_implies(sv_not(cq), sv_not(ins)), sv_implies(sv_and(cq, compare(">", absd, rad)), ins))))
+        mid = tuple(arith("/", arith("+", a, b), 2) for a, b in zip(a_lo, a_hi))
+        for c_, is_reg_point in ((mid, region_contains(make_vector(*mid))), (ssample, True)):  # (d)
+            rc = maxdist(eng, "region_vertex_distance_from_candidate", sv, c_)
+            om = maxdist(eng, "obj_vertex_distance_from_region_candidate", ov, c_)
+            eng.assume(sv_implies(sv_and(is_reg_point, compare(">", om, rc)), sv_not(ins)))
+        eng.assume(iff(diff_empty, ins))  # (e)
+        K["log"].clear()
+        env.vars.update(self=S, obj=obj, _K=K)
+
+    def post(I, env, outcome):
+        eng = I.eng
+        oname = "regions.MeshVolumeRegion.containsObject"
+        if outcome[0] != "return":
+            return
+        K = env.vars["_K"]
+        log = K["log"]
+        if "difference" in log:
+            stage = "pass5_boolean_difference"
+        elif "sample self" in log or log.count("signed_distance") >= 1 and False:
+            stage = "pass4_region_circumradius"
+        elif "signed_distance" in log or "sample obj" in log:
+            stage = "pass2_3_4_signed_distances_and_circumradii"
+        else:
+            stage = "pass1_4_bounding_boxes_and_circumradius"
+        eng.check(f"{oname}#{stage}.result_agrees_with_containment", iff(I.truth(outcome[1]), K["inside"]))
+
+    reg.add(
+        C.Contract(
+            f"{RG}:MeshVolumeRegion.containsObject",
+            params=dict(self=C.Const(None), obj=C.Const(None)),
+            setup=setup,
+            post=post,
+            inline_all=True,
+            bounded=True,
+            note="relative to the containment kernel K8; meshes with 2 vertices each (symbolic coordinates)",
+            properties=("C04",),
+        )
     )
